@@ -237,6 +237,23 @@ namespace detail
             }
             ++n;
         }
+        // a value that arrives as an lvalue cannot be taken by a by-value parameter without a copy (and not at all
+        // when it is move-only): behave like such a functor would
+        void add(V& child)
+        {
+            if constexpr (V::is_ledgered) simrt::node_lvalue_arg(child.vid);
+            if constexpr (std::is_copy_constructible_v<V>) { V tmp(child); add(std::move(tmp)); }
+            else add(std::move(child));
+        }
+        void add(const V& child)
+        {
+            if constexpr (V::is_ledgered) simrt::node_lvalue_arg(child.vid);
+            if constexpr (std::is_copy_constructible_v<V>) { V tmp(child); add(std::move(tmp)); }
+        }
+        template<typename T> void add(ctpg::term_value<T>& t) { add(ctpg::term_value<T>(t)); }
+        template<typename T> void add(const ctpg::term_value<T>& t) { add(ctpg::term_value<T>(t)); }
+        void add(ctpg::no_type&) { error_leaf(); }
+        void add(const ctpg::no_type&) { error_leaf(); }
         void add(ctpg::term_value<std::string_view>&& t) { leaf(t.get_value(), t.get_line(), t.get_column()); }
         void add(ctpg::term_value<char>&& t) { char c = t.get_value(); leaf(std::string_view(&c, 1), t.get_line(), t.get_column()); }
         void add(ctpg::term_value<Tok>&& t) { leaf(t.get_value().sv(), t.get_line(), t.get_column()); }
@@ -271,7 +288,7 @@ struct Mk
     V operator()(A&&... a) const
     {
         detail::Builder<V> b(Rule);
-        (b.add(std::move(a)), ...);
+        (b.add(std::forward<A>(a)), ...);
         return b.finish(0);
     }
 };
@@ -285,7 +302,7 @@ struct MkCtx
     {
         int touched = ctx_touch(std::forward<C>(c), Rule);
         detail::Builder<V> b(Rule);
-        (b.add(std::move(a)), ...);
+        (b.add(std::forward<A>(a)), ...);
         return b.finish(1 + touched);
     }
 };
